@@ -41,6 +41,8 @@ def _strict_hm(s):
 
 
 def _known_f8(s):
+    if not C.finding_open("F8"):      # repaired: these inputs are judged like any other
+        return False
     parts = s.split(":")
     if len(parts) < 2:
         return False
